@@ -150,7 +150,7 @@ def gen_case(rng, tier, idx):
                                    "outcome": rng.choice(["ok", "ok", "ok", "ok", "skip", "ce", "boom", "cpe"]),
                                    # a value that is there but falsy (an empty listing, an empty string, 0)
                                    "falsy": rng.choice([None] * 9 + ["", 0, {}, []]),
-                                   "helper_outcome": rng.choice(["ok"] * 6 + ["skip", "boom"])}
+                                   "helper_outcome": rng.choice(["ok"] * 6 + ["skip", "boom"]), "subtype": rng.random() < 0.2}
         classes.append(members)
     case = {"points": points, "classes": classes}
     if rng.random() < 0.5:
@@ -187,7 +187,11 @@ def run_case(spec, ctx):
         created.extend(pts)
         impls = collections.defaultdict(list)     # k -> [(ctxset, outcome, tag, helper_ok, component)]
 
-        def mk_ds(tag, outcome, deps, value):
+        class site_datasource(datasource):
+            """a component type derived from datasource (what a site package defines to add its own defaults)"""
+            pass
+
+        def mk_ds(tag, outcome, deps, value, subtype=False):
             def f(broker):
                 LOG.append(tag)
                 if outcome == "skip":
@@ -201,7 +205,9 @@ def run_case(spec, ctx):
                 return value
             f.__name__ = f.__qualname__ = tag
             f.__module__ = modname
-            d = datasource(*deps)(f)
+            d = (site_datasource if subtype else datasource)(*deps)(f)
+            if subtype:
+                ctx.count("implementations_declared_with_a_datasource_subtype")
             created.append(d)
             return d
         n_late = spec.get("late_classes", 0)
@@ -234,7 +240,7 @@ def run_case(spec, ctx):
                 value = [tag + "#0", tag + "#1"] if spec["points"][k]["multi_output"] else tag
                 if m.get("falsy") is not None:
                     value = [] if spec["points"][k]["multi_output"] else m["falsy"]
-                d = mk_ds(tag, m["outcome"], deps, value)
+                d = mk_ds(tag, m["outcome"], deps, value, subtype=bool(m.get("subtype")))
                 body["p%d" % k] = d
                 impls[k].append((set(m["ctxs"]), m["outcome"], tag, helper_ok, d, value))
             type("I%d_%d" % (uid, ci), (S,), body)
